@@ -5,12 +5,17 @@ The warm start, the four load-step drivers, the scaled objectives / precondition
 traces with what the property demands.  Nothing is matched against statement text or local names.
 
   D1  predictor sign: with an abstract objective (hessian_vec = d grad/dx [v], jacobian_p_vec / jacobian_p2_vec = d grad/dp_k [v], all at the
-      objective's current parameters) `warm_start_increment` hands the iterative solver the operator +H(x; p_old), the right-hand side
-      J_k(x; p_old)[p_old_k - p_new_k] and returns the solution unnegated, i.e. dx = -H^-1 J_k (p_new_k - p_old_k); every driver adds
-      exactly what the warm start returned to its start point;
+      objective's current parameters) every public predictor function of the warm-start module (found by its call cone reaching a linear
+      solver and its call form f(objective, x, new parameters), wherever its pieces live) hands the solver the operator +H(x; p_old), the
+      right-hand side J_k(x; p_old)[p_old_k - p_new_k] and returns the solution unnegated, i.e. dx = -H^-1 J_k (p_new_k - p_old_k); every
+      driver starts its solver from (scaled) x0 + dx.  The driver side is decided on the *value* of the start point: it must equal
+      scaling*x0 + inv<H(scaling*x0; p_old)>[J(scaling*x0; p_old)[p_old - p_new]] (or x0 + the value a verified predictor function returned).
+      No call is identified by the callee's name: the predictor solves are the linear solves built from derivatives of the objective's
+      gradient; when the equation fails, the operator / right-hand side of those solves say which ingredient is off (parameters already
+      replaced, wrong point, wrong parameter difference, increment subtracted / dropped / scaled);
   D2  in all four drivers, for every combination of the boolean options and every path: whenever the objective is handed to other code
-      (the nonlinear solve, callbacks) it carries the new parameters, it still does when the driver returns, the warm start runs with
-      the old ones and is given the objective and the new parameters; the bound-constrained front end hands the same p on;
+      (the nonlinear solve, callbacks) it carries the new parameters, it still does when the driver returns, the predictor is computed
+      with the old ones from the difference to the new ones; the bound-constrained front end hands the same p on;
   D3  scaling transparency: drivers start the solver from scaling*x0 (+ increment), linearise warm start and preconditioner at that
       scaled point, scale bounds like the iterate, return invScaling*(solver result); ScaledObjective / BoundConstrainedObjective
       evaluate the user function at t*xBar, start the base class from s*x0 with s*t = 1, store s and t as scaling / invScaling, derive s from
@@ -24,8 +29,10 @@ from __future__ import annotations
 
 import ast
 import itertools
+from fractions import Fraction
 
 from optilint.core import Incomplete
+from optilint.expr import Rat, Poly, simplify
 from optilint.model import walk_local, dotted, FuncVal
 from .C19_sym import (Machine, Oracle, explore, Unsupported, PathEnd, Budget, Num, Record, RecordType, Obj, Closure, Bound, FunSym, JitFn, GradFn, Mat,
                       OpaqueAttr, Partial, mutable_attributes)
@@ -83,6 +90,12 @@ def _inline_policy(ctx):
     (depth 3) reaches the warm start or assigns a `.p` attribute (extracted pieces of a driver), and -- optionally -- small loop-free helpers."""
     repo = ctx.repo
     cache = {}
+    # names of methods (other than constructors) that store the parameters of their object: calling one is as good as `obj.p = ...`
+    setters = set()
+    for s_ in repo.functions():
+        if s_.cls is not None and s_.name != "__init__" and not s_.module.is_test:
+            if any(isinstance(n, ast.Attribute) and isinstance(n.ctx, ast.Store) and n.attr == "p" for n in ast.walk(s_.node)):
+                setters.add(s_.name)
 
     def touches(sc, depth, seen):
         if id(sc) in seen or depth > 3:
@@ -90,6 +103,10 @@ def _inline_policy(ctx):
         seen.add(id(sc))
         for n in ast.walk(sc.node):
             if isinstance(n, ast.Attribute) and isinstance(n.ctx, ast.Store) and n.attr == "p":
+                return True
+            if isinstance(n, ast.Call) and isinstance(n.func, ast.Attribute) and n.func.attr in setters:
+                return True
+            if isinstance(n, ast.Call) and isinstance(n.func, ast.Name) and n.func.id == "setattr":
                 return True
         for n in ast.walk(sc.node):
             if isinstance(n, ast.Call):
@@ -105,6 +122,9 @@ def _inline_policy(ctx):
                             return True
         return False
 
+    # functions that the public functions of the warm-start module are made of, wherever they live (re-exported, moved to another module)
+    predictor_cone = _ws_cone(ctx)
+
     def small(sc):
         n_st = 0
         for n in ast.walk(sc.node):
@@ -119,7 +139,7 @@ def _inline_policy(ctx):
     def inline(sc):
         k = id(sc)
         if k not in cache:
-            if sc.module.name == WS:
+            if sc.module.name == WS or sc.qualname in predictor_cone:
                 cache[k] = True
             elif sc.module.is_test:
                 cache[k] = False
@@ -291,18 +311,100 @@ def _int_default_params(sc):
     return out
 
 
-def _ws_functions(ctx):
-    """public warm-start entry points: module-level functions of WarmStart whose first parameters are (objective, x, new parameters)"""
-    mod = ctx.need_module(WS)
-    funcs = [c for c in mod.scope.children if c.kind == "function"]
-    helpers = set()
-    for c in funcs:
-        for n in ast.walk(c.node):
+def _solver_reach(ctx):
+    """reaches(scope) -> the call cone of the function (inside the repository, depth 4) contains a call of a linear solver"""
+    from optilint.model import ExtVal
+    from .C19_sym import ITERATIVE_SOLVERS, DIRECT_SOLVERS
+    repo = ctx.repo
+    memo = {}
+
+    def callees(sc):
+        out = []
+        for n in ast.walk(sc.node):
             if isinstance(n, ast.Call):
-                for v in ctx.repo.resolve(n.func, c):
-                    if isinstance(v, FuncVal) and v.scope in funcs and v.scope is not c:
-                        helpers.add(v.scope.name)
-    out = [c for c in funcs if not c.name.startswith("_") and c.name not in helpers and len(c.params()) >= 3]
+                try:
+                    out += list(repo.resolve(n.func, sc))
+                except Exception:
+                    pass
+        return out
+
+    def reaches(sc, depth=0, seen=None):
+        seen = seen if seen is not None else set()
+        if id(sc) in memo:
+            return memo[id(sc)]
+        if id(sc) in seen or depth > 4:
+            return False
+        seen.add(id(sc))
+        r = False
+        for v in callees(sc):
+            if isinstance(v, ExtVal) and v.name.split(".")[-1] in (ITERATIVE_SOLVERS | DIRECT_SOLVERS) and v.name.split(".")[0] in ("scipy", "jax"):
+                r = True
+            elif isinstance(v, FuncVal) and not v.scope.module.is_test and reaches(v.scope, depth + 1, seen):
+                r = True
+            if r:
+                break
+        if depth == 0:
+            memo[id(sc)] = r
+        return r
+    return reaches, callees
+
+
+def _ws_public(ctx):
+    """public functions of the warm-start module: defined there or imported into it from another module of the repository"""
+    mod = ctx.need_module(WS)
+    out = [c for c in mod.scope.children if c.kind == "function" and not c.name.startswith("_")]
+    for name, bs in mod.scope.bindings.items():
+        if name.startswith("_") or not bs or bs[-1].kind != "importfrom":
+            continue
+        try:
+            vals = ctx.repo.resolve(ast.Name(id=name, ctx=ast.Load()), mod.scope)
+        except Exception:
+            vals = ()
+        for v in vals:
+            if isinstance(v, FuncVal) and v.scope.kind == "function" and v.scope.cls is None and not v.scope.module.is_test and v.scope not in out:
+                out.append(v.scope)
+    return out
+
+
+def _ws_solver_functions(ctx):
+    """public functions of the warm-start module whose call cone reaches a linear solver"""
+    r = ctx.repo
+    if not hasattr(r, "_c19_ws_solver"):
+        reaches, _ = _solver_reach(ctx)
+        r._c19_ws_solver = [c for c in _ws_public(ctx) if reaches(c)]
+    return r._c19_ws_solver
+
+
+def _ws_cone(ctx):
+    """qualnames of the solver-reaching public warm-start functions and of the repository functions they call (depth 3) that reach the
+    solver themselves: the predictor, however it is split into functions and modules"""
+    r = ctx.repo
+    if not hasattr(r, "_c19_ws_cone"):
+        reaches, callees = _solver_reach(ctx)
+        out = set()
+
+        def add(sc, depth):
+            if sc.qualname in out or depth > 3:
+                return
+            out.add(sc.qualname)
+            for v in callees(sc):
+                if isinstance(v, FuncVal) and v.scope.kind == "function" and not v.scope.module.is_test and reaches(v.scope):
+                    add(v.scope, depth + 1)
+        for c in _ws_solver_functions(ctx):
+            add(c, 0)
+        r._c19_ws_cone = out
+    return r._c19_ws_cone
+
+
+def _ws_functions(ctx):
+    """predictor functions that are verified on their own: public functions of the warm-start module that reach a linear solver and can be
+    called as f(objective, x, new parameters) (further parameters have defaults).  Private helpers are covered through their callers;
+    public functions with another signature (e.g. a whole load-step preamble) through the drivers that call them."""
+    out = []
+    for c in _ws_solver_functions(ctx):
+        ps = c.params()
+        if len(ps) >= 3 and all(c.default_of(p_) is not None for p_ in ps[3:]) and all(c.default_of(p_) is not None for p_ in c.kwonly()):
+            out.append(c)
     if not out:
         raise Incomplete("no warm-start function found in optimism.WarmStart")
     return out
@@ -344,10 +446,25 @@ def d1(ctx):
                 mode = "slot"       # the third argument is the new value of one slot, not the whole parameter tuple
             scenarios = [({}, None)]
             if idx and mode == "record":
-                (ip, dflt), = list(idx.items())[:1]
+                # the slot selector: the integer option whose value changes which derivative / difference enters the right-hand side
                 m0 = Machine(ctx.repo)
                 nf = len(_params_type(m0, ctx).fields)
-                scenarios = [({}, dflt)] + [({ip: k}, k) for k in range(nf)]
+
+                def signature(kw):
+                    sig = set()
+                    for _orc, r_ in _run_ws(ctx, sc, mode, kw):
+                        for e_ in r_["m"].events:
+                            if e_["kind"] == "linsolve" and r_["m"].is_numlike(e_["rhs"]):
+                                sig.add(r_["m"].key(e_["rhs"]))
+                    return sig
+                sel = None
+                for ip, dflt in idx.items():
+                    sigs = [signature({ip: k}) for k in sorted(set(SLOT_METHOD) | {dflt})]
+                    if any(s_ != sigs[0] for s_ in sigs[1:]):
+                        sel = (ip, dflt)
+                        break
+                if sel is not None:
+                    scenarios = [({}, sel[1])] + [({sel[0]: k}, k) for k in range(nf)]
             n_ret = 0
             for kw, slot in scenarios:
                 slot = 0 if slot is None else slot
@@ -425,8 +542,6 @@ def _driver_paths(ctx, q, scaled, max_paths=1500):
     flags = _bool_params(sc)
     inline = _inline_policy(ctx)
     mut = _mutable(ctx)
-    wsmod = ctx.need_module(WS)
-    ws_quals = [c.qualname for c in wsmod.scope.children if c.kind == "function"]
     out = []
     for combo in itertools.product([True, False], repeat=len(flags)):
         cdict = dict(zip(flags, combo))
@@ -437,24 +552,6 @@ def _driver_paths(ctx, q, scaled, max_paths=1500):
             pold, pnew = _params(m, t, "pold"), _params(m, t, "pnew")
             obj = _spec_objective(m, "objective", pold, scaled, cls=ctx.repo.find(f"{OBJ}:Objective"))
             X0 = m.sym("X0")
-            wsdepth = [0]
-
-            def watch(mm, phase, info):
-                if phase == "enter":
-                    wsdepth[0] += 1
-                    if wsdepth[0] > 1:
-                        return None
-                    ev = {"kind": "ws", "fn": info["scope"].qualname, "args": dict(info["env"].vars), "node": info["node"], "value": None,
-                          "returned": False, "p_at_call": obj.attrs.get("p"), "idx": len(mm.events)}
-                    mm.events.append(ev)
-                    return ev
-                wsdepth[0] -= 1
-                if info["token"] is not None:
-                    info["token"]["value"] = info["value"]
-                    info["token"]["returned"] = True
-                return None
-            for wq in ws_quals:
-                m.watch[wq] = watch
 
             def watch_driver(mm, phase, info):
                 # another load-step driver is entered (interpreted in line): a hand-off of the objective like a solver call
@@ -514,6 +611,37 @@ def _leaves_with(m, v, atom, out=None):
     return out
 
 
+def _leaves_flagged(m, v, atom, out=None, wrapped=False):
+    """like _leaves_with, with a flag: the leaf sits inside an uninterpreted function whose value enters further arithmetic (a factor
+    applied outside, e.g. scaling * stack(lower, upper), may or may not reach the leaf: not understood)"""
+    out = out if out is not None else []
+    if isinstance(v, OpaqueAttr) or (isinstance(v, Obj) and v.opaque):
+        try:
+            v = m.num(v)
+        except Unsupported:
+            return out
+    if isinstance(v, Num):
+        if atom in v.r.atoms():
+            out.append((v, wrapped))
+        else:
+            ats = list(v.r.atoms())
+            bare = len(ats) == 1 and m.equal(v, Num(m.A.atom(ats[0])))
+            for a in ats:
+                k, ex = m.info.get(a, ("sym", {}))
+                for x in ex.get("args", ()):
+                    _leaves_flagged(m, x, atom, out, wrapped or not bare)
+    elif isinstance(v, Record):
+        for x in v.values:
+            _leaves_flagged(m, x, atom, out, wrapped)
+    elif isinstance(v, (tuple, list)):
+        for x in v:
+            _leaves_flagged(m, x, atom, out, wrapped)
+    elif isinstance(v, dict):
+        for x in v.values():
+            _leaves_flagged(m, x, atom, out, wrapped)
+    return out
+
+
 def _solution_atom(m, a):
     k, ex = m.info.get(a, ("sym", {}))
     if k in ("ret", "havoc"):
@@ -526,10 +654,129 @@ def _solution_atom(m, a):
     return False
 
 
+# ---- the predictor, read off the values (no function or variable is identified by name)
+
+def _g_parts(m, atom):
+    """(point, parameters) of an atom grad0[E](point; parameters) -- the gradient of the abstract objective -- else None"""
+    k, ex = m.info.get(atom, ("", {}))
+    if k == "app" and str(ex.get("f", "")).startswith("grad0[") and len(ex.get("args", ())) == 2:
+        return ex["args"][0], ex["args"][1]
+    return None
+
+
+def _mentions_gradient(m, *vals):
+    for v in vals:
+        if v is None:
+            continue
+        try:
+            ats = m.atoms_deep(v)
+        except Unsupported:
+            continue
+        if any(_g_parts(m, a) is not None for a in ats):
+            return True
+    return False
+
+
+def _predictor_solves(m, cone=()):
+    """linear solves that belong to a warm start: performed inside a function of the warm-start module (or one of the functions its public
+    functions are made of), or built from derivatives of the objective's gradient"""
+    ranges = [(a["ev_lo"], a["ev_hi"]) for a in m.activations if (a["scope"].module.name == WS or a["scope"].qualname in cone) and a["ev_hi"] is not None]
+    out = []
+    for e in m.events:
+        if e["kind"] != "linsolve":
+            continue
+        inside = any(lo <= e["idx"] < hi for lo, hi in ranges)
+        if inside or _mentions_gradient(m, e["probe"], e["rhs"] if m.is_numlike(e["rhs"]) else None):
+            out.append(e)
+    return out
+
+
+def _read_solve(m, ev):
+    """ingredients of a predictor solve: g = [(gradient atom, point, parameters)] of every derivative operator in the system operator and the
+    right-hand side, rhs = [(gradient atom, derivative path, argument)] (the right-hand side is a sum of derivative operators applied to
+    arguments), zero_rhs, readable (False when operator or right-hand side have another structure)"""
+    out = {"g": [], "rhs": [], "readable": True, "zero_rhs": False, "op_path": None}
+
+    def add_g(a):
+        parts = _g_parts(m, a)
+        if parts is None:
+            out["readable"] = False
+        else:
+            out["g"].append((a, parts[0], parts[1]))
+    op = ev["op"]
+    if op[0] == "D":
+        add_g(op[1])
+        out["op_path"] = op[2]
+    else:
+        out["readable"] = False
+    if not m.is_numlike(ev["rhs"]):
+        out["readable"] = False
+        return out
+    r = simplify(m.A.norm(m.num(ev["rhs"]).r))
+    if r.n.is_zero():
+        out["zero_rhs"] = True
+        return out
+    if not r.d.is_const():
+        out["readable"] = False
+        return out
+    dc = r.d.const_value()
+    groups = {}
+    for mono, c in r.n.t.items():
+        k, ex = m.info.get(mono[0][0], ("", {})) if len(mono) == 1 and mono[0][1] == 1 else ("", {})
+        if k != "lin" or ex["op"][0] != "D" or "mono" not in ex:
+            out["readable"] = False
+            continue
+        groups[ex["op"]] = groups.get(ex["op"], Rat(Poly())) + Rat(Poly({ex["mono"]: Fraction(c) / dc}))
+    for op_, arg in groups.items():
+        add_g(op_[1])
+        out["rhs"].append((op_[1], op_[2], Num(m.A.norm(arg))))
+    return out
+
+
+def _has_inverse(m, a):
+    k, ex = m.info.get(a, ("", {}))
+    return k == "lin" and ex["op"][0] == "inv"
+
+
+def _split_start(m, v):
+    """(predictor part, base part) of a start point: the monomials that contain the solution of a linear solve, and the others"""
+    r = simplify(m.A.norm(m.num(v).r))
+    if not r.d.is_const():
+        return None
+    dc = r.d.const_value()
+    pred, base = {}, {}
+    for mono, c in r.n.t.items():
+        (pred if any(_has_inverse(m, a) for a, _e in mono) else base)[mono] = Fraction(c) / dc
+    return Num(Rat(Poly(pred))), Num(Rat(Poly(base)))
+
+
+def _call_site(m, sc, ev):
+    """the call in the driver's own source during which the event happened (for locations)"""
+    for a in m.activations:
+        if a["ev_hi"] is not None and a["ev_lo"] <= ev["idx"] < a["ev_hi"]:
+            n = _node_in(sc, a["node"])
+            if n is not None:
+                return n
+    return _node_in(sc, ev.get("node"))
+
+
+def _const_multiple(m, a, b):
+    """a == c*b with a non-zero constant c"""
+    if m.A.is_zero(m.num(b).r):
+        return False
+    try:
+        c = m.rat_const(Num(simplify(m.A.norm(m.num(a).r / m.num(b).r))))
+    except Exception:
+        return False
+    return c is not None and c != 0
+
+
 def drivers(ctx):
     R1, R2, R3 = "D1/T7-predictor-sign", "D2/T2-parameters-before-solve", "D3/T6-scaling-transparent"
     inlined_al = {}
     g_executed, g_visited = set(), set()
+    ws_verified = {c.qualname for c in _ws_functions(ctx)}
+    ws_cone = _ws_cone(ctx)
     for q, scaled in DRIVERS:
         try:
             sc, paths = _driver_paths(ctx, q, scaled)
@@ -542,13 +789,25 @@ def drivers(ctx):
             continue
         agg = _Agg()
         n_use = n_warm = 0
-        bound_params = [p_ for p_ in sc.params() if "bound" in p_.lower() and p_ not in sc.params()[:3]]
+        # ---- which boolean options switch the predictor on: no path computes it when the option is off, some path does when it is on
+        for _orc, r in paths:
+            r["pred_all"] = _predictor_solves(r["m"], ws_cone)
+        rets = [r for _orc, r in paths if r["status"] == "ret"]
+        flags = list(paths[0][1]["combo"]) if paths else []
+        switches = []
+        for f in flags:
+            on, off = [r for r in rets if r["combo"][f]], [r for r in rets if not r["combo"][f]]
+            if on and off and not any(r["pred_all"] for r in off) and any(r["pred_all"] for r in on):
+                switches.append(f)
+        vector_params = set()
+        for _orc, r in paths:
+            vector_params |= r["m"].numified
+        cand_bounds = [p_ for p_ in sc.params()[3:] + sc.kwonly() if p_ not in flags and (p_ in vector_params or "bound" in p_.lower())]
         for orc, r in paths:
             m, obj, X0, pold, pnew, sigma = r["m"], r["obj"], r["X0"], r["pold"], r["pnew"], r["sigma"]
             label = _path_label(r["combo"], orc)
             evs = m.events
             uses = [e for e in evs if e["kind"] in ("use", "ocall") and id(obj) in e["snap"] and not (e["kind"] == "ocall" and e["obj"] is obj)]
-            wss = [e for e in evs if e["kind"] == "ws"]
             pres = [e for e in evs if e["kind"] == "precond"]
             sx0 = Num(m.A.norm(sigma.r * X0.r))
             (x0a,) = X0.r.atoms()
@@ -560,14 +819,14 @@ def drivers(ctx):
             # returned value), and on return
             out_atoms = m.atoms_deep(r["out"]) if r["status"] == "ret" else set()
             for e in uses:
-                if e["kind"] != "use" or e.get("discarded") or not (set(e["ret"].r.atoms()) & out_atoms):
+                if e.get("discarded") or not (set(e["ret"].r.atoms()) & out_atoms):
                     continue
                 n_use += 1
                 p_seen = e["snap"][id(obj)][1].get("p")
                 ok = m.same(p_seen, pnew)
                 agg.add(R2, "params-assigned-before-solve", sc, _node_in(sc, e["node"]), _verdict(ok, _precise(m, p_seen)),
                         "the objective carries the new parameters whenever it is handed to the solver and when the driver returns",
-                        f"[{label}] the objective is handed to `{str(e.get('callee'))[:60]}` while its parameters are `{_show(m, p_seen, 60)}`, not the "
+                        f"[{label}] the objective is handed to `{str(e.get('callee') or e.get('meth'))[:60]}` while its parameters are `{_show(m, p_seen, 60)}`, not the "
                         f"new `p`: a path reaches the nonlinear solve without `objective.p = p`, so the solve (and its success flag) would refer to the "
                         f"previous load step's parameters")
             for e in [e for e in evs if e["kind"] == "handoff" and any(v is obj for v in e["args"].values())]:
@@ -586,34 +845,10 @@ def drivers(ctx):
                 ok = m.same(e["value"], pnew)
                 agg.add(R2, "params-assigned-before-solve", sc, _node_in(sc, e["node"]), _verdict(ok, _precise(m, e["value"])), "",
                         f"[{label}] the objective's parameters are assigned `{_show(m, e['value'], 60)}`, not the parameters the caller asked to solve for")
-            # ---- the warm start
-            warm_flag = r["combo"].get("useWarmStart")
-            for e in wss:
-                n_warm += 1
-                ok = m.same(e["p_at_call"], pold)
-                agg.add(R2, "warm-start-sees-old-params", sc, _node_in(sc, e["node"]), _verdict(ok, _precise(m, e["p_at_call"])),
-                        "the warm start runs while the objective still holds the previous parameters",
-                        f"[{label}] the objective's parameters are already `{_show(m, e['p_at_call'], 50)}` when the warm start runs, so the predictor sees "
-                        f"p_new - p_new = 0 (assigned before the warm start)")
-                vals = list(e["args"].values())
-                ok_o = any(v is obj for v in vals)
-                ok_p = any((isinstance(v, Record) and m.same(v, pnew)) or
-                           (m.is_numlike(v) and any(m.is_numlike(x) and m.same(v, x) for x in pnew.values)) for v in vals)
-                agg.add(R2, "warm-start-arguments", sc, _node_in(sc, e["node"]), _verdict(ok_o and ok_p, True),
-                        "warm start receives the driver's objective and the new parameters",
-                        f"[{label}] warm start is called with {{" + ", ".join(f'{k}: {_show(m, v, 40)}' for k, v in e['args'].items()) + "}: it must get the driver's objective and the new parameters `p`")
-                if scaled:
-                    xs = [v for v in vals if m.is_numlike(v) and not isinstance(v, (int, float)) and m.depends(m.num(v), x0a)]
-                    okx = len(xs) == 1 and m.equal(xs[0], sx0)
-                    agg.add(R3, "warm_start_increment-at-the-scaled-point", sc, _node_in(sc, e["node"]),
-                            _verdict(okx, all(_precise(m, x) for x in xs)),
-                            "warm start is linearised at scaling*x0, the point the scaled objective lives at",
-                            f"[{label}] the warm start is evaluated at `{_show(m, xs[0] if xs else None, 60)}` but the objective lives in the scaled variables "
-                            f"scaling*x0: Hessian and mixed derivative of the predictor are taken at the wrong point whenever scaling != 1")
-            if warm_flag is True and not wss and r["status"] == "ret":
-                agg.add(R1, "driver-adds-increment", sc, None, False, "", f"[{label}] useWarmStart is set but no warm start is computed on this path")
             # ---- the start point handed to the solver
-            solves = [e for e in uses if e["kind"] == "use" and not e.get("discarded")]
+            solves = [e for e in uses if not e.get("discarded")]
+            # the solver: the first hand-off of the objective together with a point that depends on x0 (the predictor itself is never a
+            # hand-off: the functions it is made of are always interpreted, see _inline_policy)
             start = first = None
             for e in solves:
                 cands = []
@@ -624,76 +859,171 @@ def drivers(ctx):
                     break
             if first is None and solves:
                 first = solves[0]
-            wsval = None
-            done = [e for e in wss if e["returned"] and m.is_numlike(e["value"])]
-            if done:
-                wsval = m.num(done[0]["value"])
+            # ---- the predictor: the linear solves before the solver is started
+            lins = [e for e in r["pred_all"] if first is None or e["idx"] < first["idx"]]
+            if r["pred_all"]:
+                n_warm += 1
+            if switches and all(r["combo"][f] for f in switches) and not r["pred_all"] and r["status"] == "ret":
+                agg.add(R1, "driver-adds-increment", sc, None, False, "",
+                        f"[{label}] {' and '.join(switches)} {'is' if len(switches) == 1 else 'are'} set but no warm start is computed on this path")
+            G = _grad_atom(m, sx0, pold)
+            hinv = ("inv", ("D", G, PROTOCOL["hessian_vec"]))
+            P = [m.lin(hinv, m.lin(("D", G, (1, k)), Num(m.num(pold.values[k]).r - m.num(pnew.values[k]).r))) for k in sorted(SLOT_METHOD)]
+            ideals = P + ([Num(m.A.norm(sum((x.r for x in P[1:]), P[0].r)))] if len(P) > 1 else [])
+            split = _split_start(m, start) if start is not None else None
+            ideal_ok = bool(lins) and split is not None and any(m.equal(split[0], w) for w in ideals)
+            for e in lins:
+                node = _call_site(m, sc, e)
+                ing = _read_solve(m, e)
+                gs = ing["g"]
+                recs = [pp for _a, _pt, pp in gs]
+                d_old = "the predictor is computed while the objective still holds the previous parameters"
+                d_arg = "the predictor's right-hand side is the parameter Jacobian applied to (old - new) parameters: the warm start receives the driver's objective and the new parameters"
+                d_pt = "warm start is linearised at scaling*x0, the point the scaled objective lives at" if scaled else "warm start is linearised at the driver's current point"
+                c_pt = (R3, "warm_start_increment-at-the-scaled-point") if scaled else (R1, "warm_start_increment-at-the-current-point")
+                if ideal_ok:
+                    agg.add(R2, "warm-start-sees-old-params", sc, node, True, d_old, "")
+                    agg.add(R2, "warm-start-arguments", sc, node, True, d_arg, "")
+                    agg.add(c_pt[0], c_pt[1], sc, node, True, d_pt, "")
+                    continue
+                # the start point is not x0 + predictor: which ingredient of the linear solve is off
+                sees_old = None
+                if gs:
+                    sees_old = all(m.same(pp, pold) for pp in recs)
+                    bad = [pp for pp in recs if not m.same(pp, pold)]
+                    agg.add(R2, "warm-start-sees-old-params", sc, node, _verdict(sees_old, all(_precise(m, pp) for pp in recs)), d_old,
+                            f"[{label}] the objective's parameters are already `{_show(m, bad[0] if bad else None, 50)}` when the warm start runs, so the predictor sees "
+                            f"p_new - p_new = 0 (assigned before the warm start)")
+                else:
+                    agg.add(R2, "warm-start-sees-old-params", sc, node, None, d_old, f"[{label}] the operator of the predictor's linear solve `{_show(m, e['probe'], 60)}` is not a derivative of the objective's gradient")
+                if gs:
+                    pts = [pt for _a, pt, _pp in gs]
+                    okx = all(m.is_numlike(pt) and m.equal(pt, sx0) for pt in pts)
+                    badp = [pt for pt in pts if not (m.is_numlike(pt) and m.equal(pt, sx0))]
+                    agg.add(c_pt[0], c_pt[1], sc, node, _verdict(okx, all(_precise(m, pt) for pt in pts)), d_pt,
+                            f"[{label}] the warm start is evaluated at `{_show(m, badp[0] if badp else None, 60)}` but the objective lives in the scaled variables "
+                            f"scaling*x0: Hessian and mixed derivative of the predictor are taken at the wrong point whenever scaling != 1" if scaled else
+                            f"[{label}] the warm start is evaluated at `{_show(m, badp[0] if badp else None, 60)}`, not at the driver's current point `{_show(m, sx0, 30)}`")
+                if ing["zero_rhs"]:
+                    if sees_old:
+                        agg.add(R2, "warm-start-arguments", sc, node, False, d_arg,
+                                f"[{label}] the right-hand side of the predictor vanishes although the objective still holds the previous parameters: the warm start is "
+                                f"not given the new parameters `p` (it must get the driver's objective and the new parameters)")
+                elif ing["rhs"]:
+                    ok_all, prec = True, True
+                    shown = ""
+                    for (ga, path, arg) in ing["rhs"]:
+                        pp = _g_parts(m, ga)[1]
+                        good = len(path) == 2 and path[0] == 1 and isinstance(pp, Record) and 0 <= path[1] < len(pp.values) and m.is_numlike(pp.values[path[1]]) and \
+                            _const_multiple(m, arg, Num(m.num(pp.values[path[1]]).r - m.num(pnew.values[path[1]]).r))
+                        if not good:
+                            ok_all, shown = False, f"d grad/dp{list(path[1:])} applied to `{_show(m, arg, 50)}`"
+                            prec = prec and _precise(m, arg)
+                    agg.add(R2, "warm-start-arguments", sc, node, _verdict(ok_all, prec and ing["readable"]), d_arg,
+                            f"[{label}] the right-hand side of the predictor is {shown}, not the parameter Jacobian applied to the difference between the objective's "
+                            f"parameters and the new parameters `p`: the warm start must get the driver's objective and the new parameters")
+                elif not ing["readable"]:
+                    agg.add(R2, "warm-start-arguments", sc, node, None, d_arg, f"[{label}] right-hand side `{_show(m, e['rhs'], 60)}` of the predictor's linear solve not understood")
+            # ---- start point = (scaled) x0 + what the warm start returned
             if first is not None:
                 node = _node_in(sc, first["node"])
                 d_add = "start point = (scaled) x0 + exactly the value the warm start returned (nothing without warm start)"
                 d_ent = "solver starts from objective.scaling*x0 (+ warm-start increment)"
-                if start is None:
-                    agg.add(R1, "driver-adds-increment", sc, node, None, "", f"[{label}] no argument of the solver call depends on x0")
+                if start is None or split is None:
+                    why = "no argument of the solver call depends on x0" if start is None else f"start point `{_show(m, start, 60)}` is not a polynomial in x0 and the predictor"
+                    agg.add(R1, "driver-adds-increment", sc, node, None, "", f"[{label}] {why}")
                     if scaled:
-                        agg.add(R3, "entry-scaled", sc, node, None, "", f"[{label}] no argument of the solver call depends on x0")
+                        agg.add(R3, "entry-scaled", sc, node, None, "", f"[{label}] {why}")
                 else:
-                    inc = wsval if wsval is not None else m.const(0)
-                    want = Num(m.A.norm(sx0.r + inc.r))
+                    pred, base = split
                     prec = _precise(m, start)
-                    nz = not m.A.is_zero(inc.r)
-                    v_add = v_ent = True
-                    msg_add = msg_ent = ""
-                    if not m.equal(start, want):
-                        if nz and m.equal(start, Num(m.A.norm(sx0.r - inc.r))):
-                            v_add, msg_add = False, "the warm-start increment is subtracted from the start point (dx = -H^-1 J_p (p_new - p_old) must be added)"
-                        elif nz and m.equal(start, sx0):
-                            v_add, msg_add = False, "the warm-start increment is not added to the start point"
+                    # values the interpreted functions returned while the predictor was solved (whatever they are called)
+                    # `verified`: results of the predictor functions that D1 verifies on their own; `returned`: for the diagnosis only
+                    returned, verified = [], []
+                    for e in lins:
+                        for a in m.activations:
+                            if a["returned"] and a["ev_hi"] is not None and a["ev_lo"] <= e["idx"] < a["ev_hi"] and a["scope"] is not sc and m.is_numlike(a["value"]) \
+                                    and not isinstance(a["value"], (int, float)):
+                                returned.append(m.num(a["value"]))
+                                if a["scope"].qualname in ws_verified:
+                                    verified.append(m.num(a["value"]))
+                        returned.append(m.num(e["sol"]))
+                    v_add, msg_add = True, ""
+                    if not lins:
+                        if not m.A.is_zero(pred.r):
+                            v_add, msg_add = None, "it contains the solution of a linear solve that is not recognised as a warm start"
+                    elif not (ideal_ok or any(m.equal(pred, w) for w in verified)):
+                        if m.A.is_zero(pred.r):
+                            v_add, msg_add = _verdict(False, prec), "the warm-start increment is not added to the start point"
+                        elif any(m.equal(pred, Num(-w.r)) for w in returned + ideals):
+                            v_add, msg_add = _verdict(False, prec), "the warm-start increment is subtracted from the start point (dx = -H^-1 J_p (p_new - p_old) must be added)"
                         else:
-                            base = Num(m.A.norm(start.r - inc.r))
-                            if _base_only_scaling_issue(m, base, X0):
-                                if scaled:
-                                    v_ent, msg_ent = False, f"apart from the increment it is `{_show(m, base, 60)}`, not objective.scaling*x0"
-                                else:
-                                    v_add, msg_add = False, f"apart from the increment it is `{_show(m, base, 60)}`, not x0"
-                            else:
-                                v_add = v_ent = _verdict(False, prec)
-                                msg_add = msg_ent = f"it is not {'objective.scaling*x0' if scaled else 'x0'} plus the value `{_show(m, inc, 60)}` the warm start returned"
+                            v_add = _verdict(False, prec and all(_precise(m, w) for w in returned))
+                            msg_add = f"its predictor part `{_show(m, pred, 60)}` is not the value `{_show(m, returned[0], 60)}` the warm start returned"
+                    v_ent, msg_ent = True, ""
+                    if not m.equal(base, sx0):
+                        if _base_only_scaling_issue(m, base, X0):
+                            v_ent, msg_ent = False, f"apart from the increment it is `{_show(m, base, 60)}`, not {'objective.scaling*x0' if scaled else 'x0'}"
+                        else:
+                            v_ent = _verdict(False, prec)
+                            msg_ent = f"apart from the increment it is `{_show(m, base, 60)}`, not {'objective.scaling*x0' if scaled else 'x0'}"
+                    if not scaled and v_ent is not True:
+                        v_add = v_ent if v_add is True else v_add
+                        msg_add = msg_add or msg_ent
                     agg.add(R1, "driver-adds-increment", sc, node, v_add, d_add, f"[{label}] the solver starts from `{_show(m, start, 90)}`: {msg_add}")
                     if scaled:
                         agg.add(R3, "entry-scaled", sc, node, v_ent, d_ent, f"[{label}] the solver starts from `{_show(m, start, 90)}`: {msg_ent}")
             # ---- preconditioner refresh at the current (scaled) start point
             if scaled:
-                ws_idx = done[0]["idx"] if done else None
+                last_lin = lins[-1]["idx"] if lins else None
                 for e in pres:
                     if e["obj"] is not obj or not m.is_numlike(e["point"]) or (first is not None and e["idx"] > first["idx"]):
                         continue
                     pt = m.num(e["point"])
-                    after = ws_idx is not None and e["idx"] > ws_idx
-                    want = Num(m.A.norm(sx0.r + wsval.r)) if (after and wsval is not None) else sx0
-                    if after and start is not None and not m.equal(want, start):
-                        want = start if m.equal(pt, start) else want
+                    after = last_lin is not None and e["idx"] > last_lin
+                    want = sx0 if not after else start
+                    if last_lin is not None and lins[0]["idx"] < e["idx"] < last_lin:
+                        # between two predictor solves: the current point is one of the partial sums
+                        if not any(w is not None and m.equal(pt, w) for w in (sx0, start)):
+                            agg.add(R3, "update_precond-at-the-scaled-point", sc, _node_in(sc, e["node"]), None, "",
+                                    f"[{label}] preconditioner refreshed at `{_show(m, pt, 60)}` between two predictor solves")
+                        continue
+                    if want is None:
+                        agg.add(R3, "update_precond-at-the-scaled-point", sc, _node_in(sc, e["node"]), None, "", f"[{label}] start point of the solver not identified")
+                        continue
                     ok = m.equal(pt, want)
-                    agg.add(R3, "update_precond-at-the-scaled-point", sc, _node_in(sc, e["node"]), _verdict(ok, _precise(m, pt)),
+                    agg.add(R3, "update_precond-at-the-scaled-point", sc, _node_in(sc, e["node"]), _verdict(ok, _precise(m, pt, want)),
                             "preconditioner is refreshed at the scaled start point",
                             f"[{label}] update_precond is evaluated at `{_show(m, pt, 60)}` but the objective lives in the scaled variables (current start "
                             f"point `{_show(m, want, 60)}`): the preconditioner is built at the wrong point whenever scaling != 1")
-            # ---- bounds scaled like the iterate
-            if scaled and first is not None and bound_params:
-                for bp in bound_params:
-                    leaves = []
+            # ---- bounds scaled like the iterate: every other array argument of the driver that reaches the solver
+            if scaled and first is not None and cand_bounds:
+                for bp in cand_bounds:
+                    flagged = []
                     for v in list(first["args"]) + list(first["kwargs"].values()):
-                        leaves += _leaves_with(m, v, bp)
+                        flagged += _leaves_flagged(m, v, bp)
+                    leaves = [l for l, _w in flagged]
+                    understood = not any(w for _l, w in flagged)
                     raw = any(isinstance(v, Obj) and v.name == bp for v in m.objs_in([first["args"], first["kwargs"]]))
+                    named = "bound" in bp.lower()
+                    in_x_space = named or any(m.depends(l, list(sigma.r.atoms())[0]) for l in leaves if sigma.r.atoms())
+                    if not in_x_space:
+                        continue        # an array argument that is never scaled: not known to live in the space of the unknowns
                     want = Num(m.A.norm(sigma.r * m.A.atom(bp)))
                     ok = bool(leaves) and all(m.equal(l, want) for l in leaves) and not raw
-                    agg.add(R3, f"bounds-scaled:{bp}", sc, _node_in(sc, first["node"]), _verdict(ok, all(_precise(m, l) for l in leaves)),
+                    if not leaves and not raw:
+                        # nothing of the bound is visible in the solver's arguments: a definite finding only if they contain no result
+                        # of a call that was not interpreted (the bound may have gone through it)
+                        hidden = any(m.kind(a) in ("ret", "havoc") for a in m.atoms_deep([first["args"], first["kwargs"]]))
+                        understood = understood and not hidden
+                    agg.add(R3, f"bounds-scaled:{bp}", sc, _node_in(sc, first["node"]), _verdict(ok, understood and all(_precise(m, l) for l in leaves)),
                             f"{bp} reaches the solver as objective.scaling*{bp}",
                             f"[{label}] bound `{bp}` reaches the solver as `{_show(m, leaves[0], 60) if leaves else ('the unscaled argument' if raw else 'nothing')}`; "
                             f"it must be scaled like the iterate (objective.scaling*{bp})")
             # ---- exit
             if scaled and r["status"] == "ret":
                 out = r["out"]
-                first_out = out[0] if isinstance(out, tuple) and out else out
+                first_out = out[0] if isinstance(out, (tuple, list)) and out else out.values[0] if isinstance(out, Record) and out.values else out
                 ok, prec, shown = False, False, _show(m, first_out, 70)
                 if m.is_numlike(first_out):
                     o_ = m.num(first_out)
@@ -725,21 +1055,26 @@ def drivers(ctx):
                             f"parameters or predictor would be applied twice / stale")
                 elif al_seen:
                     # the AL driver was interpreted in line: it must not have applied a second predictor, and must have assigned the same p
-                    nws = len(wss)
-                    expect = 1 if r["combo"].get("useWarmStart") else 0
+                    pa, seen_sol = [], set()
+                    for e in r["pred_all"]:         # the same solve repeated (an abstract loop iteration is interpreted twice) counts once
+                        k_ = m.key(e["sol"])
+                        if k_ not in seen_sol:
+                            seen_sol.add(k_)
+                            pa.append(e)
                     sets = [e for e in evs if e["kind"] == "set" and e["obj"] is obj and e["attr"] == "p"]
                     okp = all(m.same(e["value"], pnew) for e in sets)
-                    second_zero = all(m.is_numlike(e["value"]) and m.A.is_zero(m.num(e["value"]).r) for e in wss[1:] if e["returned"])
-                    agg.add(R2, "front-end-forwards-p-no-second-warm-start", sc, None, _verdict(okp and (nws <= max(expect, 1)) or (okp and second_zero), True),
+                    second_zero = all(m.A.is_zero(m.num(e["sol"]).r) for e in pa[1:])
+                    agg.add(R2, "front-end-forwards-p-no-second-warm-start", sc, None,
+                            _verdict(okp and (len(pa) <= 1 or second_zero), all(_precise(m, e["value"]) for e in sets) and all(_precise(m, e["sol"]) for e in pa)),
                             "the AL driver (interpreted in line) receives the same p and applies no second predictor",
-                            f"[{label}] through the AL driver the parameters are set to {[_show(m, e['value'], 30) for e in sets]} and {nws} warm starts run: "
+                            f"[{label}] through the AL driver the parameters are set to {[_show(m, e['value'], 30) for e in sets]} and {len(pa)} warm starts run: "
                             f"parameters or predictor would be applied twice / stale")
         for orc, r in paths:
             g_executed.update(r["m"].executed)
             g_visited.update(r["visited"])
         if n_use == 0:
             ctx.undecided(R2, sc, None, construct="params-assigned-before-solve", detail="no hand-off of the objective to a solver found on any path")
-        if n_warm == 0 and not q.endswith(":bound_constrained_solve") and "augmented" not in q:
+        if n_warm == 0:
             ctx.undecided(R1, sc, None, construct="driver-adds-increment", detail="no warm start in this driver")
         if q.endswith(":bound_constrained_solve") and not inlined_al.get(q):
             ctx.undecided(R2, sc, None, construct="front-end-forwards-p-no-second-warm-start", detail="the call of the AL driver was not found")
@@ -749,12 +1084,18 @@ def drivers(ctx):
     # functions must have been executed on some path of some driver analysis
     for qn in sorted(g_visited):
         s_ = ctx.repo.find(qn)
-        if s_ is None or s_.module.name == WS:
+        if s_ is None:
             continue
         for st in walk_local(s_.node):
             tg = st.targets if isinstance(st, ast.Assign) else [st.target] if isinstance(st, (ast.AugAssign, ast.AnnAssign)) else []
             if any(isinstance(x, ast.Attribute) and x.attr == "p" for t_ in tg for x in ast.walk(t_)) and id(st) not in g_executed:
                 ctx.undecided(R2, s_, st, construct="params-assigned-before-solve", detail="an assignment of a `.p` attribute was not reached by the path exploration")
+    # every public function of the warm-start module that can reach a linear solver is analysed: on its own (D1) or as part of a driver
+    own = {c.qualname for c in _ws_functions(ctx)}
+    for c in _ws_solver_functions(ctx):
+        if c.qualname not in own and c.qualname not in g_visited:
+            ctx.undecided(R1, c, None, construct=f"{c.name}:interpretation",
+                          detail=f"{c.name} reaches a linear solver but is neither callable as f(objective, x, new parameters) nor reached from a load-step driver")
 
 
 def _base_only_scaling_issue(m, base, X0):
@@ -814,6 +1155,11 @@ def _build_scaled(ctx, cls, with_strategy):
                 m.watch[ch.qualname] = watch
     o = m.instantiate(cls, [F, X0, P], kwargs)
     return {"m": m, "obj": o, "F": F, "X0": X0, "P": P, "base": base_calls, "opt": opt, "kwargs": kwargs, "init": init}
+
+
+def _callable_obj(ctx, v):
+    """instance of a repository class that defines __call__"""
+    return v.cls is not None and any(ch.kind == "function" and ch.name == "__call__" for c in ctx.repo.class_mro(v.cls) for ch in c.children)
 
 
 def _factor(m, v, atom_num):
@@ -883,18 +1229,22 @@ def d3_classes(ctx):
             Y, Q = m.sym("Y"), _params(m, _params_type(m, ctx), "q")
             g = gval = None
             for k_, v in base.items():
-                if isinstance(v, (Closure, JitFn, Partial, Bound)):
+                if isinstance(v, (Closure, JitFn, Partial, Bound)) or (isinstance(v, Obj) and not v.opaque and v is not o and _callable_obj(ctx, v)):
                     try:
                         val = m.call(v, [Y, Q], {})
                     except (Unsupported, PathEnd):
                         continue
                     if m.is_numlike(val) and any(m.info.get(a, ("", {}))[1].get("f") == "F" for a in m.atoms_deep(m.num(val))):
                         g, gval = v, m.num(val)
-            starts = [v for v in base.values() if m.is_numlike(v) and not isinstance(v, (int, float)) and m.depends(m.num(v), x0a)
-                      and _factor(m, v, X0) is not None]
-            strat = [v for v in base.values() if isinstance(v, Obj) and v is not o and not v.opaque]
+            starts_all = [v for v in base.values() if m.is_numlike(v) and not isinstance(v, (int, float)) and m.depends(m.num(v), x0a)]
+            starts = [v for v in starts_all if _factor(m, v, X0) is not None]
+            strat = [v for v in base.values() if isinstance(v, Obj) and v is not o and v is not g and not v.opaque]
+            recs = [v for v in base.values() if isinstance(v, Record)]
+            given = [v for v in r["kwargs"].values() if isinstance(v, Obj) and v.opaque]
             f.update(g=g, gval=gval, start=m.num(starts[0]) if len(starts) == 1 else None, strat=strat[0] if strat else None,
-                     p_ok=any(isinstance(v, Record) and m.same(v, P) for v in base.values()), Y=Y, Q=Q)
+                     start_any=m.num(starts_all[0]) if len(starts_all) == 1 else None, n_starts=len(starts_all),
+                     raw_strategy=[v for v in base.values() if any(v is x for x in given)],
+                     p_ok=any(m.same(v, P) for v in recs), p_seen=recs, Y=Y, Q=Q)
             # t: the factor of xBar inside the scaled objective
             t = None
             if gval is not None:
@@ -936,47 +1286,73 @@ def d3_classes(ctx):
                                   f"evaluates the user function at t*xBar with t = `{_show(m, f['t'], 50)}`: t is not the reciprocal of s"
                                   + ("" if ws_ else " (both must be 1 without a strategy)"))
         # ---- base class initialised with the scaled objective at s*x0 and p
-        bad = [k for k, f in facts.items() if f["s"] is None or f["g"] is None or not f["p_ok"]]
-        prec_b = all(f["start"] is None or _precise(runs[k]["m"], f["start"], lenient=True) for k, f in facts.items())
-        ctx.decide(rule, _verdict(not bad, prec_b), scope, None, construct=f"{cn}:base-init",
-                   detail="base class initialised with the scaled objective at s*x0 (s independent of x0) and the given parameters",
-                   bad_detail=f"base class initialised with start point `{_show(runs[bad[0]]['m'], facts[bad[0]]['start'], 60)}`" if bad else "")
+        verdict, why = True, ""
+        for k, f in facts.items():
+            mk = runs[k]["m"]
+            if f["g"] is None or not f["p_seen"] or (f["start"] is None and f["n_starts"] != 1):
+                verdict = None if verdict is True else verdict
+                why = why or ("the scaled objective / the start point / the parameters among the arguments of the base class constructor are not identified "
+                              f"({f['n_starts']} arguments depend on x0)")
+            elif f["start"] is None:
+                # the only argument that depends on x0 is not x0 times a factor
+                verdict = _verdict(False, _precise(mk, f["start_any"], lenient=True)) if verdict is not False else verdict
+                why = f"base class initialised with start point `{_show(mk, f['start_any'], 60)}`, which is not x0 times a factor independent of x0"
+            elif not f["p_ok"]:
+                verdict = _verdict(False, all(_precise(mk, v) for v in f["p_seen"])) if verdict is not False else verdict
+                why = f"base class initialised with the parameters `{_show(mk, f['p_seen'][0], 60)}`, not the given ones"
+        ctx.decide(rule, verdict, scope, None, construct=f"{cn}:base-init",
+                   detail="base class initialised with the scaled objective at s*x0 (s independent of x0) and the given parameters", bad_detail=why)
         # ---- stored attributes are the factors in use
         for attr, role in (("scaling", "s"), ("invScaling", "t")):
-            bad, shown = [], ""
+            bad, und, shown = [], [], ""
             for k, f in facts.items():
                 m, o = runs[k]["m"], runs[k]["obj"]
                 v = o.attrs.get(attr)
-                if f[role] is None or v is None or not m.is_numlike(v) or not m.equal(v, f[role]):
+                if f[role] is None:
+                    und.append(k)
+                elif v is None or not m.is_numlike(v) or not m.equal(v, f[role]):
                     bad.append(k)
                     shown = f"self.{attr} is `{_show(m, v, 50)}` but the factor in use is `{_show(m, f[role], 50)}` ({'with' if k else 'without'} strategy)"
             prec_s = all(_precise(runs[k]["m"], runs[k]["obj"].attrs.get(attr), f[role], lenient=True) for k, f in facts.items()
                          if runs[k]["m"].is_numlike(runs[k]["obj"].attrs.get(attr)) and f[role] is not None)
-            ctx.decide(rule, _verdict(not bad, prec_s), scope, None, construct=f"{cn}:stores-{attr}",
+            ctx.decide(rule, _verdict(not bad, prec_s) if (bad or not und) else None, scope, None, construct=f"{cn}:stores-{attr}",
                        detail=f"self.{attr} is the factor " + ("the start point is scaled with" if role == "s" else "applied to xBar inside the scaled objective"),
-                       bad_detail=shown + ": the drivers scale with the stored attribute, the objective with the other value")
+                       bad_detail=(shown + ": the drivers scale with the stored attribute, the objective with the other value") if bad else
+                       "the factor in use was not identified")
         # ---- with a strategy: the scaled strategy works with the diagonal t, and s = sqrt(diag K0) of the strategy initialised at x0
         f, r = facts[True], runs[True]
         m, o = r["m"], r["obj"]
         strat = f["strat"]
-        if strat is None or f["t"] is None:
-            ctx.decide(rule, None if f["t"] is None else False, scope, None, construct=f"{cn}:precond-gets-invScaling",
-                       bad_detail="no scaled preconditioner strategy is handed to the base class although a strategy was given")
+        if f["t"] is None:
+            ctx.undecided(rule, scope, None, construct=f"{cn}:precond-gets-invScaling", detail="the factor inside the scaled objective was not identified")
         else:
             try:
                 Y2 = m.sym("Y2")
-                meth = m.getattr(strat, "initialize")
-                n_extra = len(meth.fn.scope.params()) - 3 if isinstance(meth, Bound) else 0
                 mark = len(m.events)
-                m.call(meth, [Y2, r["P"]] + [m.sym(f"extra{i}") for i in range(max(n_extra, 0))], {})
+                if strat is not None:
+                    meth = m.getattr(strat, "initialize")
+                    n_extra = len(meth.fn.scope.params()) - 3 if isinstance(meth, Bound) else 0
+                    m.call(meth, [Y2, r["P"]] + [m.sym(f"extra{i}") for i in range(max(n_extra, 0))], {})
+                    how = "the scaled preconditioner strategy"
+                else:
+                    # no strategy object of a repository class among the constructor arguments: ask the finished object to refresh its
+                    # preconditioner at the scaled point Y2 and see where the user's strategy is initialised
+                    m.call(m.getattr(o, "update_precond"), [Y2], {})
+                    how = "the object's preconditioner refresh"
                 inner = [e for e in m.events[mark:] if e["kind"] == "ocall" and e["meth"] == "initialize"]
                 want = Num(m.A.norm(f["t"].r * Y2.r))
                 got = m.num(inner[0]["args"][0]) if inner and inner[0]["args"] and (m.is_numlike(inner[0]["args"][0]) or isinstance(inner[0]["args"][0], Mat)) else None
                 ok = got is not None and m.equal(got, want)
-                ctx.decide(rule, _verdict(ok, got is not None and _precise(m, got, lenient=True)), scope, None, construct=f"{cn}:precond-gets-invScaling",
-                           detail="the scaled strategy maps scaled points back with the same diagonal t the scaled objective uses",
-                           bad_detail=f"the scaled preconditioner strategy initialises the user's strategy at `{_show(m, got, 50)}` for the scaled point Y2; with the "
-                                      f"objective's factor t it must be `{_show(m, want, 50)}` (it was given the wrong diagonal)")
+                if not inner:
+                    verdict = False if (f["raw_strategy"] or strat is None) else None
+                    bad = ("the user's (unscaled) strategy itself is handed to the base class for the scaled objective" if f["raw_strategy"] else
+                           "the given strategy is never initialised when the preconditioner of the scaled objective is refreshed")
+                else:
+                    verdict = _verdict(ok, got is not None and _precise(m, got, lenient=True))
+                    bad = (f"{how} initialises the user's strategy at `{_show(m, got, 50)}` for the scaled point Y2; with the "
+                           f"objective's factor t it must be `{_show(m, want, 50)}` (it was given the wrong diagonal)")
+                ctx.decide(rule, verdict, scope, None, construct=f"{cn}:precond-gets-invScaling",
+                           detail="the scaled strategy maps scaled points back with the same diagonal t the scaled objective uses", bad_detail=bad)
             except (PathEnd,) + ERR as ex:
                 ctx.undecided(rule, scope, None, construct=f"{cn}:precond-gets-invScaling", detail=f"cannot interpret the scaled strategy: {ex}")
         # s^2 == diagonal(K0), K0 = first preconditioner of the given strategy initialised at (x0, p)
@@ -1024,49 +1400,53 @@ def d3_strategies(ctx):
             m = Machine(ctx.repo, Oracle(), _inline_policy(ctx), _mutable(ctx))
             args = [Obj(p_, opaque=True) for p_ in init.params()[1:]]
             o = m.instantiate(cls, args, {})
-            # the diagonal: the attribute that holds diag(<constructor argument>)
-            diags = []
-            for a, v in o.attrs.items():
-                if isinstance(v, Mat) and len(v.terms) == 1:
-                    (w, c), = v.terms.items()
-                    ex = m.info.get(w[0], ("", {}))[1] if len(w) == 1 else {}
-                    if "diag" in ex and m.equal(Num(c), m.const(1)):
-                        diags.append((a, w[0], ex["diag"]))
             arg_atoms = {ar.name for ar in args}
-            ok = len(diags) == 1 and any(m.equal(diags[0][2], Num(m.A.atom(n))) for n in arg_atoms)
-            ctx.decide(rule, ok, init, None, construct=f"{cn}:diagonal-from-argument",
-                       detail=f"self.{diags[0][0] if diags else '?'} = diag(constructor argument)",
-                       bad_detail=f"the strategy stores {[(a, _show(m, d, 30)) for a, _s, d in diags]} as diagonal matrices; exactly one diag(<constructor argument>) expected")
-            if len(diags) != 1:
-                continue
-            dname, dsym, dvec = diags[0]
-            inner_objs = [ar for ar in args]
-            # initialize: the inner strategy sees D * x
+            # the diagonal D the strategy works with is read off its behaviour: initialize(Y, ...) initialises the inner strategy at d*Y
             Y, Pq = m.sym("Y"), _params(m, _params_type(m, ctx), "q")
             mark = len(m.events)
             m.call(m.getattr(o, "initialize"), [Y, Pq] + [m.sym(f"extra{i}") for i in range(len(ini.params()) - 3)], {})
-            inner = [e for e in m.events[mark:] if e["kind"] == "ocall" and e["meth"] == "initialize"]
+            inner = [e for e in m.events[mark:] if e["kind"] == "ocall" and e["meth"] == "initialize" and e["obj"].opaque]
             got = None
             if inner and inner[0]["args"]:
                 a0 = inner[0]["args"][0]
                 got = m.num(a0) if (m.is_numlike(a0) or isinstance(a0, Mat)) else None
-            want = Num(m.A.norm(dvec.r * Y.r))
-            ctx.decide(rule, _verdict(got is not None and m.equal(got, want), got is None or _precise(m, got, lenient=True)) if inner else False, ini, None,
-                       construct=f"{cn}:initialize-at-unscaled-point",
-                       detail=f"inner strategy initialised at self.{dname}*x",
+            d = _factor(m, got, Y) if got is not None else None
+            d_is_arg = d is not None and any(m.equal(d, Num(m.A.atom(n))) for n in arg_atoms)
+            # attribute that holds the diagonal (for the wording only)
+            dname = next((a for a, v in o.attrs.items() if d is not None and ((isinstance(v, Mat) and m.same(v, m.mat_diag(d))) or
+                                                                                (m.is_numlike(v) and not isinstance(v, (int, float)) and m.equal(v, d)))), "?")
+            if not inner:
+                v_init = False
+            elif got is None:
+                v_init = None
+            else:
+                v_init = _verdict(d is not None, _precise(m, got, lenient=True))
+            ctx.decide(rule, v_init, ini, None, construct=f"{cn}:initialize-at-unscaled-point",
+                       detail=f"inner strategy initialised at D*x with D = self.{dname}",
                        bad_detail=f"inner strategy initialised at `{_show(m, got, 50) if inner else 'nothing'}`, not at D*x with the strategy's own diagonal D")
+            ctx.decide(rule, None if d is None else _verdict(d_is_arg, _precise(m, d, lenient=True)), init, None, construct=f"{cn}:diagonal-from-argument",
+                       detail=f"the diagonal D (self.{dname}) is diag(constructor argument)",
+                       bad_detail=(f"the strategy maps points with the diagonal `{_show(m, d, 40)}`, which is not one of its constructor arguments" if d is not None else
+                                   "the diagonal the strategy works with was not identified"))
             # precond_at_attempt: D^T K D (+ terms that do not involve K)
             mark = len(m.events)
             att = m.sym("attempt")
             K2 = m.call(m.getattr(o, "precond_at_attempt"), [att], {})
-            inner = [e for e in m.events[mark:] if e["kind"] == "ocall" and e["meth"] == "precond_at_attempt"]
-            ok, shown = False, _show(m, K2, 90)
-            if inner and len(inner) == 1 and isinstance(K2, Mat):
+            inner = [e for e in m.events[mark:] if e["kind"] == "ocall" and e["meth"] == "precond_at_attempt" and e["obj"].opaque]
+            ok, shown = None, _show(m, K2, 90)
+            if len(inner) == 1 and isinstance(K2, Mat):
                 e0 = inner[0]
                 (kname,) = e0["ret"].r.atoms()
                 kwords = {w: c for w, c in K2.terms.items() if any(kname in s_ for s_ in w)}
-                ok = list(kwords) == [(dsym, kname, dsym)] and m.equal(Num(kwords[(dsym, kname, dsym)]), m.const(1)) \
-                    and len(e0["args"]) == 1 and m.is_numlike(e0["args"][0]) and m.equal(e0["args"][0], att)
+                ok = False
+                if len(kwords) == 1:
+                    (w, c), = kwords.items()
+                    dd = [m.info.get(s_, ("", {}))[1].get("diag") for s_ in (w[0], w[-1])] if len(w) == 3 else [None, None]
+                    ok = len(w) == 3 and w[1] == kname and dd[0] is not None and dd[1] is not None and m.equal(dd[0], dd[1]) and m.equal(Num(c), m.const(1)) \
+                        and (d is None or m.equal(dd[0], d)) and (d is not None or any(m.equal(dd[0], Num(m.A.atom(n))) for n in arg_atoms)) \
+                        and len(e0["args"]) == 1 and m.is_numlike(e0["args"][0]) and m.equal(e0["args"][0], att)
+            elif not inner and isinstance(K2, Mat):
+                ok = False          # the inner strategy's matrix is never requested
             ctx.decide(rule, ok, pa, None, construct=f"{cn}:congruence", detail=f"K2 = D^T K D with D = self.{dname}",
                        bad_detail=f"scaled preconditioner is `{shown}`, not D^T K D (D the strategy's diagonal, K the inner strategy's matrix for the same attempt)")
         except PathEnd as ex:
@@ -1095,14 +1475,21 @@ def d4(ctx):
             continue
         ok, why = True, []
         for orc, (mm, out, status) in res:
-            if status != "ret" or not isinstance(out, Record) or len(out.values) != len(t.fields):
+            if status != "ret":
                 ok = False
-                why.append(f"returns `{_show(mm, out, 50)}`" if status == "ret" else "raises")
+                why.append("raises")
+                continue
+            if not isinstance(out, Record) or len(out.values) != len(t.fields):
+                # a definite wrong result only if every loop on the way was executed exactly
+                definite = not mm.summarised and (out is None or isinstance(out, Record) or (isinstance(out, Num) and _precise(mm, out)))
+                ok = False if (definite or ok is False) else None
+                why.append(f"returns `{_show(mm, out, 50)}`" + ("" if definite else " after a summarised loop (not understood)"))
                 continue
             for j, v in enumerate(out.values):
                 want = mm.sym("NEW") if j == k else mm.sym(f"p{j}")
                 if not (mm.is_numlike(v) and mm.equal(v, want)):
-                    ok = False
+                    definite = mm.is_numlike(v) and _precise(mm, v)
+                    ok = False if (definite or ok is False) else None
                     why.append(f"slot {j} gets `{_show(mm, v, 30)}` instead of " + ("the new value" if j == k else f"p[{j}]"))
         ctx.decide(rule, ok, piu, None, construct=f"param_index_update:index=={k}", detail=f"index {k}: new value in slot {k}, others copied",
                    bad_detail=f"param_index_update(index=={k}): " + "; ".join(why[:3]))
@@ -1161,8 +1548,15 @@ def d4(ctx):
                 if ch.kind == "function" and ch.name == meth and msc is None:
                     msc = ch
         if msc is None:
-            ctx.undecided(rule, cls, None, construct=f"Objective.{meth}", detail="method of the warm-start protocol not found")
-            continue
+            # not a `def` of the class: a function stored in the class body / on the instance is as good
+            try:
+                cand = m.getattr(o, meth)
+            except (PathEnd,) + ERR:
+                cand = None
+            if not isinstance(cand, (Bound, Closure, JitFn, Partial)):
+                ctx.undecided(rule, cls, None, construct=f"Objective.{meth}", detail="method of the warm-start protocol not found")
+                continue
+            msc = cls
         try:
             val = m.call(m.getattr(o, meth), [Z, V], {})
             want = m.lin(("D", _grad_atom(m, Z, Pcur), path), V)
@@ -1211,7 +1605,9 @@ def variants(repo):
                 src = src.replace(old, new)
             return src
         return f
-    return [
+    from .C19_variants import EXTRA
+    extra = [Variant(name, rel, subs(*pairs), expect) for (name, rel, pairs, expect) in EXTRA]
+    return extra + [
         Variant("warm start linearised at the unscaled point", E, sub_in_func("nonlinear_equation_solve", "WarmStart.warm_start_increment(objective,\n                                               xBar0, p)", "WarmStart.warm_start_increment(objective,\n                                               x0, p)"), "D3/T6-scaling-transparent"),
         Variant("pNew - p_old", W, sub_in_func("warm_start_increment", "dp = objective.p[index] - pNew[index]", "dp = pNew[index] - objective.p[index]"), "D1/T7-predictor-sign"),
         Variant("return -dx", W, sub_in_func("warm_start_increment", "    return dx ", "    return -dx "), "D1/T7-predictor-sign"),
